@@ -21,7 +21,7 @@ GEN = os.path.join(VERIF, "coq", "gen", "OwnGraph.v")
 WORK = os.path.join(vlib.BUILD, "c17")
 VARIANTS = ["ipc", "local", "ipc_threadsafe", "local_threadsafe"]
 NSLOTS = {("pubsub", 1): 6, ("pubsub", 2): 8, ("event", 1): 4, ("event", 2): 6, ("reqres", 1): 7, ("reqres", 2): 8,
-          ("blackboard", 1): 6, ("blackboard", 2): 8, ("reqres2", 1): 9}
+          ("blackboard", 1): 6, ("blackboard", 2): 8, ("reqres2", 1): 9, ("rrovf", 1): 8}
 
 # Candidate defects of /repo found by this check and reported to the lead, who decides between a
 # fix: commit in /repo and an entry in known_findings.json (matched by the same key).  Until then
@@ -164,14 +164,14 @@ def jobs_for(ctx, exe):
         for i in range(nsh):
             jobs.append(("rnd:%s:%s:%d:%d" % (v, p, nn, i), [exe, "rnd", v, p, str(nn), str(i), str(nsh), seed, str(count)]))
 
-    def fam(v, nsh, count):
+    def fam(v, nsh, count, p="reqres2"):
         for i in range(nsh):
-            jobs.append(("fam:%s:reqres2:%d" % (v, i), [exe, "fam", v, "reqres2", "1", str(i), str(nsh), seed, str(count)]))
+            jobs.append(("fam:%s:%s:%d" % (v, p, i), [exe, "fam", v, p, "1", str(i), str(nsh), seed, str(count)]))
 
     plan = {"exhaustive": [], "sampled": [], "regressions": []}
     # minimal orders of the findings so far run on every tier
     for v in ("ipc", "local"):
-        for p, nn, order in (("reqres2", 1, "6,3,8,7,0,1,2,4,5"), ("reqres2", 1, "3,8,7,0,1,2,4,5,6"), ("pubsub", 1, "3,0,1,2,4,5"), ("event", 1, "0,1,2,3")):
+        for p, nn, order in (("rrovf", 1, "3,4,0,1,2,5,6,7"), ("reqres2", 1, "6,3,8,7,0,1,2,4,5"), ("reqres2", 1, "3,8,7,0,1,2,4,5,6"), ("pubsub", 1, "3,0,1,2,4,5"), ("event", 1, "0,1,2,3")):
             jobs.append(("perm:%s:%s:%s" % (v, p, order), [exe, "perm", v, p, str(nn), order]))
             plan["regressions"].append("%s %s %s" % (v, p, order))
     # request-response with two requests of one client in flight: the server side (server, active_a, active_b) is dropped
@@ -182,6 +182,10 @@ def jobs_for(ctx, exe):
             fam(v, 2, n)
             rnd(v, "reqres2", 1, 1, 40)
             plan["sampled"] += ["%s reqres2 server-side-first: 6 x %d of 720 client-side orders" % (v, n), "%s reqres2: 40 of 9!" % v]
+            # one client, two servers, expired-connection buffer 1: both orders of the servers first, then client-side orders
+            fam(v, 1, 10, "rrovf")
+            rnd(v, "rrovf", 1, 1, 20)
+            plan["sampled"] += ["%s rrovf servers-first: 2 x 10 of 720, 20 of 8!" % v]
     else:
         for v in VARIANTS:
             if v in ("ipc", "local"):
@@ -192,6 +196,9 @@ def jobs_for(ctx, exe):
                 plan["sampled"].append("%s reqres2 server-side-first: 6 x 60" % v)
             rnd(v, "reqres2", 1, 8, 250)
             plan["sampled"].append("%s reqres2: 2000 of 9!" % v)
+            fam(v, 8, 0 if v in ("ipc", "local") else 60, "rrovf")
+            rnd(v, "rrovf", 1, 4, 250)
+            plan["exhaustive" if v in ("ipc", "local") else "sampled"].append("%s rrovf servers-first: 2 x %s; 1000 of 8!" % (v, "720" if v in ("ipc", "local") else "60"))
     if not th:
         for v in ("ipc", "local"):
             exh(v, "pubsub", 1, 6)
@@ -297,7 +304,9 @@ def run(ctx):
                 "response: receive + request canary; active request: canary + 1+3 responses; response: canary; family reqres2 (two requests of one "
                 "client in flight, one borrowed Response): every pending response must receive EXACTLY the responses sent to it and not yet "
                 "received (each live active request sends one per round, after the pending responses drained), zero-copy payloads are first read "
-                "in a forked child so that an unmapped segment is reported as payload-unreadable-signal-11; writer/reader: fresh entry "
+                "in a forked child so that an unmapped segment is reported as payload-unreadable-signal-11; family rrovf (one client, two servers, "
+                "client_expired_connection_buffer = 1, the second server's connection holds a borrowed Response: the borrowed Response must stay "
+                "readable when both servers are gone; no model instance, property-side checks only); writer/reader: fresh entry "
                 "handle on another key / same key; entry handles: update / read-back; node: Node::list; service handle: nodes() + dynamic "
                 "config), panics caught per drop/smoke; at the end leftovers (anything but nodes/, services/, *.global_mgmt), Node::list / "
                 "Service::list must be empty and node + service are re-created under the same names with different settings and used once. "
